@@ -111,9 +111,120 @@ def allSmallFit (ps cs : Array Nat) (m limit env : Nat) : Bool := Id.run do
       if a + b + 2 + env > limit then ok := false
   return ok
 
+/-- kind "pre": plugins launched by `Adaptation.Start` and synchronized by `syncPlugins`. -/
+def judgePre (inp obs : Json) : Except String Verdict := do
+  let limit ← getNat inp "limit"
+  let m ← getNat inp "min_objs"
+  let outcome ← getStr obs "outcome"
+  let panicLine := getStrD obs "panic"
+  let runaway := getBoolD obs "runaway"
+  let ps := expandCounts (← getPairs obs "pod_sizes")
+  let cs := expandCounts (← getPairs obs "ctr_sizes")
+  if outcome == "harness" then throw s!"harness could not run the case: {getStrD obs "detail"}"
+  let nP := ps.size
+  let nC := cs.size
+  let pods := List.range nP
+  let ctrs := List.range nC
+  let wire := payloadSize (fun i => ps.getD i 0) (fun i => cs.getD i 0)
+  let fitsOk := fun (c : Chunk Nat Nat) => decide (wire c ≤ limit)
+  let transmissible := allSmallFit ps cs m limit 64
+  let rtUpd := (← getArr obs "runtime_updates").map fun x => (x.getNat?.toOption.getD bogus)
+  let pin ← getArr inp "plugins"
+  let pobs ← getArr obs "plugins"
+  let normal := outcome == "synced" && !runaway
+  if normal && pin.length != pobs.length then throw "plugin observations do not match the input"
+  -- per plugin: (name, handler, updates, plan, calls, bad, returned, activated)
+  let plugins ← (pin.zip pobs).mapM fun (pi, po) => do
+    let name := s!"{getStrD pi "idx"}-{getStrD pi "name"}"
+    if normal && getStrD po "name" != name then throw s!"plugin {name}: observation is for {getStrD po "name"}"
+    let plan ← (← getArr po "plan").mapM getChunk
+    let callsJ ← getArr po "calls"
+    let calls ← callsJ.mapM fun c => do
+      pure (expandRuns (← getPairs c "pods"), expandRuns (← getPairs c "ctrs"))
+    let bad := callsJ.foldl (fun acc c => acc + getNatD c "bad") 0
+    let returned := (← getArr po "returned").map fun x => (x.getNat?.toOption.getD bogus)
+    pure (name, getStrD pi "handler", getNatD pi "updates", plan, calls, bad, returned, getBoolD po "activated")
+  let fullCall := fun (c : List Nat × List Nat) => c.1 == pods && c.2 == ctrs
+  -- ---------------------------------------------------------------- spec, on the observation
+  let checkPlugin := fun (x : String × String × Nat × List (Chunk Nat Nat) × List (List Nat × List Nat) × Nat × List Nat × Bool) =>
+    let (name, handler, k, plan, calls, bad, returned, activated) := x
+    let complete := match plan.getLast? with | some c => !c.more | none => false
+    if !calls.all fullCall then some ("C09:handler-args", s!"{name}: handler called with {calls.map fun c => (c.1.length, c.2.length)} of {nP}/{nC} objects, or out of order")
+    else if bad != 0 then some ("C09:content", s!"{name}: {bad} delivered object(s) differ from what the runtime supplied")
+    else if calls.length > 1 then some ("C09:handler-calls", s!"{name}: handler called {calls.length} times")
+    else if complete then
+      if handler == "none" then
+        if !calls.isEmpty then some ("C09:handler-calls", s!"{name}: no handler but called")
+        else if !activated then some ("C09:not-activated", s!"{name}: synchronized but not activated") else none
+      else if calls.length != 1 then some ("C09:handler-calls", s!"{name}: last chunk delivered, handler called {calls.length} times")
+      else if handler == "error" then
+        if activated then some ("C09:activated-after-failure", s!"{name}: handler failed the synchronization but the plugin was activated") else none
+      else if returned != ctrs.take k then some ("C09:updates-lost", s!"{name}: returned {returned}")
+      else if !activated then some ("C09:not-activated", s!"{name}: synchronized but not activated") else none
+    else
+      if !calls.isEmpty then some ("C09:handler-calls", s!"{name}: handler called although the last chunk never arrived")
+      else if activated then some ("C09:activated-after-failure", s!"{name}: synchronization incomplete but the plugin was activated")
+      else if transmissible then some ("C09:failed-transmissible:pre", s!"{name}: not synchronized although every message of ≤ {m} objects fits")
+      else none
+  let expectUpd := plugins.foldl (fun acc x =>
+    let (_, handler, _, plan, _, _, returned, _) := x
+    let complete := match plan.getLast? with | some c => !c.more | none => false
+    if complete && handler == "record" then acc ++ returned else acc) ([] : List Nat)
+  let (spec, sig, swhy) : Bool × String × String :=
+    if outcome == "crashed" then
+      (false, if (panicLine.splitOn "slice bounds out of range").length > 1 then "C09:crashed:slice-bounds" else "C09:crashed",
+        s!"the runtime process died in Adaptation.Start: {panicLine}")
+    else if outcome == "timeout" then (false, "C09:timeout", "Adaptation.Start did not return")
+    else if runaway then (false, "C09:runaway:pre", "the sender kept sending to a pre-installed plugin until cut off")
+    else if outcome != "synced" then (false, "C09:start-failed", s!"Adaptation.Start failed: {getStrD obs "detail"}")
+    else match plugins.findSome? checkPlugin with
+      | some (sg, w) => (false, sg, w)
+      | none =>
+        if rtUpd != expectUpd then (false, "C09:updates-lost", s!"runtime received updates {rtUpd}, the synchronized plugins returned {expectUpd}")
+        else (true, "", "")
+  -- ---------------------------------------------------------------- agree, through the model
+  let outcomes : List (String × Outcome Nat Unit) := plugins.map fun x =>
+    let (name, handler, k, plan, _, _, _, _) := x
+    if accepts fitsOk pods ctrs plan then
+      (name, if handler == "error" then .failed (.peer ()) else if handler == "none" then .done [] else .done (ctrs.take k))
+    else (name, .failed .tooLarge)
+  let (mActive, mUpd) := activatePreinstalled outcomes
+  let oActive := (plugins.filter fun x => x.2.2.2.2.2.2.2).map (·.1)
+  let recvOk := plugins.all fun x =>
+    let (_, handler, k, plan, calls, _, _, _) := x
+    let h : Handler Nat Nat Nat Unit :=
+      if handler == "none" then none
+      else if handler == "error" then some (fun _ _ => .error ())
+      else some (fun _ cs => .ok (cs.take k))
+    (stubRun h RState.init plan).1.calls == calls
+  -- a plan that is not complete must at least be a well-formed prefix: all chunks `more`
+  let prefixOk := plugins.all fun x =>
+    let plan := x.2.2.2.1
+    accepts fitsOk pods ctrs plan || plan.all (·.more)
+  let agree := normal && mActive == oActive && mUpd == rtUpd && recvOk && prefixOk
+  let awhy :=
+    if !normal then "the model of the repaired code neither crashes, hangs nor runs away"
+    else if mActive != oActive then s!"activatePreinstalled keeps {mActive}, observed active {oActive}"
+    else if mUpd != rtUpd then s!"activatePreinstalled collects updates {mUpd}, runtime received {rtUpd}"
+    else if !recvOk then "stub model and observed handler calls differ"
+    else if !prefixOk then "a plan is neither valid nor a prefix of `more` chunks"
+    else ""
+  let chunks := plugins.foldl (fun acc x => max acc x.2.2.2.1.length) 0
+  let cover := [s!"outcome:{outcome}", "stream:pre", s!"pre:plugins:{plugins.length}",
+    s!"P:{bucket nP}", s!"C:{bucket nC}", if transmissible then "transmissible" else "not-transmissible",
+    s!"chunks:{if chunks ≤ 1 then s!"{chunks}" else if chunks ≤ 4 then "2-4" else if chunks ≤ 16 then "5-16" else "17+"}"]
+    ++ plugins.map (fun x => s!"pre:handler:{x.2.1}")
+    ++ (if normal then [s!"pre:active:{oActive.length}"] else [])
+    ++ (if normal && agree then ["trace"] else [])
+  pure { agree := agree, spec := spec, why := if !spec then swhy else awhy, cover := cover,
+         nontrivial := true, sig := sig, excluded := false,
+         model := Json.mkObj [("active", Json.arr (mActive.map Json.str).toArray),
+                              ("updates", Json.arr (mUpd.map fun (n : Nat) => (n : Json)).toArray)] }
+
 def judge (j : Json) : Except String Verdict := do
   let inp ← getObj j "in"
   let obs ← getObj j "obs"
+  if getStrD inp "kind" == "pre" then return ← judgePre inp obs
   let handler ← getStr inp "handler"
   let nUpd ← getNat inp "updates"
   let limit ← getNat inp "limit"
